@@ -57,9 +57,11 @@ TRUSTED = [
     "the tabulation of word searches as strategy tables (harness/universes/words_c14.py Tabulator) and the conversion of "
     "rule objects into (class, children, is_equivalence) records: a rule object's is_equivalence() is read off the "
     "real object, not re-derived",
-    "genuineness of the rule OBJECTS is NOT proved and only weakly checked: per instance the Python oracle re-applies "
-    "the strategy of the base rule of every rule handed out and compares the CHILDREN only (not the constructor, its "
-    "parameters, the index of a reverse rule, nor that the strategy belongs to the pack); one-rule-per-class of the "
+    "genuineness of the rule OBJECTS is NOT proved; it is checked per instance: the Python oracle re-applies "
+    "the strategy of the base rule of every rule handed out and compares the children, the declared shifts, the constructor "
+    "type and its parameter maps (_same_rule), and requires every derived form to be what its arguments say (_derived_consistent: "
+    "a ReverseRule is the reverse of its original rule w.r.t. its idx; an EquivalenceRule keeps the ONE non-empty child of its "
+    "original rule at child_idx; the members of a path chain) - not that the strategy belongs to the pack; one-rule-per-class of the "
     "returned list is decided per instance by the oracle; C02_rules_from_table is the theorem at the level of the "
     "strategy table",
     "table universes: the declared shifts of derived rule forms (EquivalenceRule, reverse of an EquivalenceRule, "
@@ -813,8 +815,11 @@ def impl(case):
                     again = b.strategy(b.comb_class)
                     if tuple(again.children) != tuple(b.children):
                         notgen.append("%s on %s" % (b.strategy, b.comb_class))
+                    else:
+                        notgen.extend(_same_rule(b, again))
                 except Exception as e:  # pylint: disable=broad-except
                     notgen.append("%s on %s raised %s" % (b.strategy, b.comb_class, type(e).__name__))
+            notgen.extend(_derived_consistent(r))
         out["not_genuine"] = notgen
         if res["spec"] is not None:
             spec = res["spec"]
@@ -848,6 +853,71 @@ def impl(case):
     out["hyp"] = hyp_out
     out["out"] = [ext_out, pumps_out, fr_out, spec_out, rev_out, cut_out, hyp_out]
     out["nrules"] = len(res["rules"]) if res["rules"] is not None else 0
+    return out
+
+
+def _ctor_facts(rule):
+    """type and parameter maps of the constructor; None where the library has none (NotImplementedError)"""
+    try:
+        c = rule.constructor
+    except NotImplementedError:
+        return None
+    ep = getattr(c, "extra_parameters", None)
+    return [type(c).__name__, repr(ep) if ep is not None else None]
+
+
+def _same_rule(b, again):
+    """the rule handed out and the rule its strategy produces when re-applied agree in MORE than their children:
+    declared shifts, constructor type, parameter maps (CLAUSES C02 (c)3)"""
+    out = []
+    try:
+        if tuple(again.shifts()) != tuple(b.shifts()):
+            out.append("%s on %s: declared shifts %r, re-applied %r" % (b.strategy, b.comb_class, b.shifts(), again.shifts()))
+    except Exception:  # pylint: disable=broad-except
+        pass        # table strategies cannot answer for every (class, children) pair
+    try:
+        fb, fa = _ctor_facts(b), _ctor_facts(again)
+    except Exception:  # pylint: disable=broad-except
+        return out
+    if fb != fa:
+        out.append("%s on %s: constructor %r, re-applied %r" % (b.strategy, b.comb_class, fb, fa))
+    return out
+
+
+def _derived_consistent(r):
+    """the derived forms are what their constructor arguments say: a ReverseRule counts child idx of its original rule
+    from the parent and the other children; an EquivalenceRule keeps the ONE non-empty child of its original rule, at
+    child_idx; the members of an EquivalencePathRule chain from the path's class to the class its child belongs to"""
+    from comb_spec_searcher.strategies.rule import EquivalencePathRule, EquivalenceRule, ReverseRule
+
+    out = []
+    if isinstance(r, EquivalencePathRule):
+        rs = list(r.rules)
+        if not rs or rs[0].comb_class != r.comb_class or tuple(rs[-1].children) != tuple(r.children):
+            out.append("path rule on %s does not start at its class / end at its child" % (r.comb_class,))
+        for a, b in zip(rs, rs[1:]):
+            if len(a.children) != 1 or a.children[0] != b.comb_class:
+                out.append("path rule on %s: step %s does not lead to the next step's class" % (r.comb_class, a.comb_class))
+        for x in rs:
+            out.extend(_derived_consistent(x))
+    elif isinstance(r, ReverseRule):
+        o = r.original_rule
+        ok = (0 <= r.idx < len(o.children) and r.comb_class == o.children[r.idx]
+              and tuple(r.children) == (o.comb_class,) + tuple(o.children[:r.idx]) + tuple(o.children[r.idx + 1:])
+              and r.strategy == o.strategy)
+        if not ok:
+            out.append("reverse rule on %s is not the reverse of its original rule w.r.t. child %r" % (r.comb_class, r.idx))
+        out.extend(_derived_consistent(o))
+    elif isinstance(r, EquivalenceRule):
+        o = r.original_rule
+        ne = [c for c in o.children if not c.is_empty()]
+        ok = (len(ne) == 1 and tuple(r.children) == (ne[0],) and r.comb_class == o.comb_class
+              and 0 <= r.child_idx < len(o.children) and o.children[r.child_idx] == ne[0]
+              and tuple(r.actual_children) == tuple(o.children) and r.strategy == o.strategy)
+        if not ok:
+            out.append("equivalence rule on %s does not keep the one non-empty child of its original rule (non-empty: %d, "
+                       "child_idx %r)" % (r.comb_class, len(ne), r.child_idx))
+        out.extend(_derived_consistent(o))
     return out
 
 
